@@ -33,6 +33,15 @@ RECIPES = [
     ("C14", "break", ["C14-R2"], N, RECT, RECT.replace(".values.T\n", ".values\n"), "output-system transform not transposed"),
     ("C14", "break", ["C14-R2"], N, "    sph = (uset.loc[(slice(None), 2), \"y\"] == 3).values", "    sph = (uset.loc[(slice(None), 2), \"y\"] != 2).values",
      "spherical fix-up applied to every non-cylindrical grid"),
+    ("C14", "break", ["C14-R2"], N, "        i = 6 * j\n", "        i = 5 * j\n", "rectangular step: blocks of five rows"),
+    ("C14", "break", ["C14-R2"], N, "    grid_loc = np.arange(0, uset.shape[0], 6)", "    grid_loc = np.arange(0, uset.shape[0], 5)", "fix-up positions with stride 5"),
+    ("C14", "break", ["C14-R2"], N, "    rbmodes[grid_rows] = rb2\n", "    rbmodes[: rb2.shape[0]] = rb2\n", "result written to the leading rows instead of the grid rows"),
+    ("C14", "break", ["C14-R2"], N, "                phi = math.atan2(loc2[1], loc2[0])\n                c = math.cos(phi)\n",
+     "                phi = math.atan2(loc2[1], loc2[0])\n", "spherical azimuth rotation with the cosine left over from the cylindrical loop"),
+    ("C14", "break", ["C14-R2"], N, "                rb2[i + 3 : i + 5] = t @ rb2[i + 3 : i + 5]\n                loc2[:2] = t @ loc2[:2]",
+     "                rb2[i - 3 : i - 1] = t @ rb2[i - 3 : i - 1]\n                loc2[:2] = t @ loc2[:2]", "fix-up writes into the rows of the previous grid"),
+    ("C14", "break", ["C14-R1"], N, "    if coordinfo[0, 1] == 1:\n        location", "    if coordinfo[1, 0] == 1:\n        location", "_get_loc_a_basic dispatches on another cell of the record"),
+    ("C14", "break", ["C14-R3"], N, "    elif np.any(refpoint != [0, 0, 0]):", "    elif np.any(refpoint != [0, 1, 0]):", "zero short cut taken for the reference [0, 1, 0]"),
     ("C14", "break", ["C14-R3"], N, "        grids = grids - grids[refpoint]", "        grids = grids + grids[refpoint]", "scalar reference added instead of subtracted"),
     ("C14", "break", ["C14-R3"], N, "    for i in range(6):\n        rbmodes[i::6, i] = 1.0", "    for i in range(3):\n        rbmodes[i::6, i] = 1.0", "unit rotations missing"),
     ("C14", "break", ["C14-R3"], N, "    return rb @ rbgeom(oldref, newref)", "    return rb @ rbgeom(newref, oldref)", "rbmove: references swapped"),
